@@ -2,11 +2,13 @@
    General theorems: legality, superstability (the enumeration of all subsets is complete and agrees with Dhar's burn), the partial order,
    the parking-function generator; for EVERY n the superstables of K_(n+1) are exactly the parking functions of length n shifted down by one, and the
    sorted form of the parking predicate (as implemented) is the counting form (Link/ParkingLink.v); the generator returns (n+1)^(n-1) distinct
-   sequences for every n (Link/ParkingCount.v). The matrix-tree theorem for general multigraphs is proved on the stated bounded domain only, by
-   kernel computation over the complete finite domain (name ends in _bounded); for complete graphs the count is proved for every n. *)
+   sequences for every n (Link/ParkingCount.v). The matrix-tree theorem is proved for EVERY connected multigraph and every sink
+   (Link/MatrixTree.v: the superstables are a transversal of Z^k modulo the rows of the reduced Laplacian; the index of a row lattice is |det|,
+   Theory/LatticeIndex.v over Theory/Det.v; the determinant of a reduced Laplacian is not negative, Theory/DetSign.v); the statements ending in
+   _bounded are additional kernel computations over complete finite domains. *)
 From Coq Require Import ZArith List Bool.
 Import ListNotations.
-From CF Require Import ZSum ListAux Defs Core Machines Config ConfigLink BoundsLink ParkingLink ParkingCount PyLib Translated TranslatedLink.
+From CF Require Import ZSum ListAux Defs Core Machines Config ConfigLink BoundsLink ParkingLink ParkingCount PyLib Translated TranslatedLink Det LatticeIndex MatrixTree.
 Open Scope Z_scope.
 
 Theorem C10_legal : forall g, wfb g = true -> forall D S, (forall v, In v S -> In v (Vg g)) ->
@@ -60,6 +62,23 @@ Theorem C10_superstable_count_complete_graph : forall k, count_superstables (com
 Proof. exact Kn_superstable_count. Qed.
 Print Assumptions C10_superstable_count_complete_graph.
 
+(* MATRIX-TREE, every connected multigraph (any multiplicities), every sink: the number of superstable configurations - counted by enumerating the
+   valence box, as the implementation does - equals the determinant of the reduced Laplacian (cofactor expansion), and that determinant is positive *)
+Theorem C10_superstable_count_eq_det : forall g, wfb g = true -> connected_b g = true -> forall q, In q (Vg g) ->
+  count_superstables g q = det (lap_reduced g q) /\ 0 < det (lap_reduced g q).
+Proof. exact matrix_tree. Qed.
+Print Assumptions C10_superstable_count_eq_det.
+(* what is behind it, part 1: the superstables w.r.t. q contain exactly one representative of every class of Z^(n-1) modulo the integer combinations
+   of the rows of the reduced Laplacian (existence: the reduction terminates; uniqueness: C02_unique) *)
+Theorem C10_superstables_are_a_transversal : forall g, wfb g = true -> connected_b g = true -> forall q, In q (Vg g) ->
+  transversal (kk g) (LQ g q) (superstables g q).
+Proof. exact superstables_transversal. Qed.
+Print Assumptions C10_superstables_are_a_transversal.
+(* part 2, pure linear algebra over Z: any finite transversal of Z^n modulo the row lattice of an n x n integer matrix has |det| elements, det <> 0 *)
+Theorem C10_lattice_index : forall n M T, transversal n M T -> Z.of_nat (length T) = Z.abs (fdet n M) /\ fdet n M <> 0.
+Proof. exact lattice_index. Qed.
+Print Assumptions C10_lattice_index.
+
 (* ---- tie to the source text: the functions translated from /repo's current CFCombinatorics.py (Translated.v, regenerated on every run) are
    the model functions used above ---- *)
 Theorem C10_source_is_parking_function : forall a, Translated.is_parking_function a None = is_parking a /\
@@ -97,6 +116,9 @@ Theorem C10_superstable_count_eq_det_bounded :
 Proof. vm_compute. reflexivity. Qed.
 Print Assumptions C10_superstable_count_eq_det_bounded.
 
+Example C10_matrix_tree_nonvacuous : let g := [[0;2;1];[2;0;3];[1;3;0]] in
+  wfb g = true /\ connected_b g = true /\ count_superstables g 1%nat = 11 /\ det (lap_reduced g 1%nat) = 11 /\ length (superstables g 1%nat) = 11%nat.
+Proof. repeat split; vm_compute; reflexivity. Qed.
 Example C10_nonvacuous : let g := [[0;1;0];[1;0;1];[0;1;0]] in
   legal_b g [0;1;0] [1;2]%nat = true /\ legal_b g [0;1;0] [1]%nat = false /\ superstable_enum g 0%nat [0;1;0] = false /\ superstable_enum g 0%nat [0;0;0] = true /\
   is_parking [2;1;2] = true /\ is_parking [2;3;2] = false /\ length (generate_parking 3) = 16%nat.
